@@ -53,12 +53,12 @@ func firstLine(s string) string {
 }
 
 type appEnv struct {
-	dir      string
-	capture  *os.File
-	written  map[string]string
-	realOut  *os.File
-	hrVars   []string
-	inited   bool
+	dir     string
+	capture *os.File
+	written map[string]string
+	realOut *os.File
+	hrVars  []string
+	inited  bool
 }
 
 var theApp appEnv
